@@ -1780,7 +1780,390 @@ def ev_part_keys(case, res, cx):
             check(f_obs, m_obs, f, m, "note_array['ks_mode']")
 
 
+# --------------------------------------------------------------------------------------------- objects edited in place
+#
+# Note.midi_pitch / Note.alter_sign are functions of the spelling the note has *now*, and
+# Tempo.microseconds_per_quarter of the bpm and unit the tempo has *now*: Note and Tempo are mutable objects with
+# public attributes (the library itself re-assigns them, e.g. when transposing).  One object is created, its
+# attributes are assigned one at a time, and the derived value is read before and/or after each assignment (directly,
+# on a copy, on a deep copy - the history then continues on the copy -, or through the consumers of the library: the
+# note array and the MIDI export of a part that holds the objects).  Every reading must be the value of the
+# attributes the object has at that moment.
+
+OBJ_READ_MODES = ["none", "prop", "copy", "deepcopy"]
+MAX_VIOL = 8
+
+
+def _note_edit_alphabet(steps, alters, octaves, incs):
+    return ([["step", s] for s in steps] + [["alter", a] for a in alters] + [["octave", o] for o in octaves]
+            + [["octave+", d] for d in incs])
+
+
+NE_ALTERS = [None, -3, -2, -1, 0, 1, 2, 3]
+NE_OCTAVES = list(range(-1, 10))
+NE_EDITS_ALL = _note_edit_alphabet(REF_STEPS, NE_ALTERS, NE_OCTAVES, [-2, -1, 1, 2])
+NE_EDITS_CORE = _note_edit_alphabet(REF_STEPS, [None, -2, -1, 0, 1, 2], [-1, 3, 4, 5, 9], [-1, 1])
+NE_EDITS_SMALL = _note_edit_alphabet("DB", [None, -1, 2], [2, 5], [1])
+NE_STARTS_ALL = [[s, a, o] for s in REF_STEPS for a in NE_ALTERS for o in NE_OCTAVES]
+NE_STARTS_MID = [[s, a, o] for s in REF_STEPS for a in (None, -1, 0, 2) for o in (-1, 4, 9)]
+NE_STARTS_CORE = [[s, a, o] for s in "CEB" for a in (None, -1, 2) for o in (0, 4)]
+NE_STARTS_SMALL = [["C", None, 4], ["F", 1, 3], ["B", -1, 5], ["E", -2, 0], ["G", 0, 9], ["A", 2, -1]]
+NE_BLOCKS = 16
+
+
+def apply_note_edit(cur, op):
+    """reference: the spelling [step, alter, octave] after the assignment `op`; None if the octave leaves -1..9"""
+    step, alter, octave = cur
+    if op[0] == "step":
+        step = op[1]
+    elif op[0] == "alter":
+        alter = op[1]
+    elif op[0] == "octave":
+        octave = op[1]
+    elif op[0] == "octave+":
+        octave = octave + op[1]
+    else:
+        raise ValueError(op)
+    if not -1 <= octave <= 9:
+        return None
+    return [step, alter, octave]
+
+
+def note_history_ok(start, ops):
+    cur = start
+    for op in ops:
+        cur = apply_note_edit(cur, op)
+        if cur is None:
+            return False
+    return True
+
+
+def note_edit_text(op):
+    if op[0] == "octave+":
+        return ".octave %s= %d" % ("+" if op[1] >= 0 else "-", abs(op[1]))
+    return ".%s = %r" % (op[0], op[1])
+
+
+def do_note_edit(note, op):
+    if op[0] == "octave+":
+        note.octave += op[1]
+    else:
+        setattr(note, op[0], op[1])
+
+
+def make_note(S, cls, step, alter, octave):
+    if cls == "Note":
+        return S.Note(step, octave, alter)
+    if cls == "GraceNote":
+        return S.GraceNote("grace", step, octave, alter)
+    raise ValueError(cls)
+
+
+def check_note_now(res, cx, note, cur, d, what="note"):
+    """the note's pitch properties against the spelling `cur` it has now"""
+    step, alter, octave = cur
+    a0 = alter or 0
+    ok, sp = cx.call("note-spelling-after-edit", lambda: (note.step, note.alter, note.octave))
+    if ok and not (sp[0] == step and sp[2] == octave and not isinstance(sp[2], bool) and (sp[1] == alter if alter is not None else sp[1] in (None, 0))):
+        res.fail("note-spelling-after-edit", expected=[step, alter, octave], observed=list(sp), where="%s.step/.alter/.octave" % what, detail=d)
+    ok, v = cx.call("note-midi-pitch-after-edit", lambda: note.midi_pitch)
+    if ok:
+        cx.eq("note-midi-pitch-after-edit", v, ref_midi(step, alter, octave), "%s.midi_pitch" % what, d)
+    if abs(a0) <= 2:
+        ok, v = cx.call("note-alter-sign-after-edit", lambda: note.alter_sign)
+        if ok and not (isinstance(v, str) and all(ch in "#xb" for ch in v) and acc_value(v) == a0):
+            res.fail("note-alter-sign-after-edit", expected="accidental sign worth %d semitone(s)" % a0, observed=v,
+                     where="%s.alter_sign" % what, detail=d)
+
+
+def read_object(cx, obj, how, check, d):
+    """one reading of the history; returns the object the history continues on"""
+    import copy
+
+    if how == "prop":
+        check(obj, d, "")
+        return obj
+    fn = copy.copy if how == "copy" else copy.deepcopy
+    ok, c = cx.call("copy-after-edit", fn, obj)
+    if not ok:
+        return obj
+    check(c, d, "%s of " % how)
+    return c
+
+
+def read_all(cx, obj, check, d):
+    import copy
+
+    check(obj, d, "")
+    for how, fn in (("copy", copy.copy), ("deepcopy", copy.deepcopy)):
+        ok, c = cx.call("copy-after-edit", fn, obj)
+        if ok:
+            check(c, d + " %s" % how, "%s of " % how)
+
+
+def ev_noteedit(case, res, cx):
+    import itertools
+    import partitura.score as S
+
+    cls, start, ops = case["cls"], case["start"], case["ops"]
+    patterns = list(itertools.product(OBJ_READ_MODES, repeat=len(ops)))
+    head = "%s(step=%r, octave=%r, alter=%r)" % (cls, start[0], start[2], start[1])
+    for pat in patterns:
+        ok, note = cx.call("note-midi-pitch-after-edit", make_note, S, cls, *start)
+        if not ok:
+            break
+        cur = list(start)
+        trace = []
+        alive = True
+
+        def check(obj, d, prefix):
+            check_note_now(res, cx, obj, cur, d, prefix + cls)
+
+        for op, rd in zip(ops, pat):
+            if rd != "none":
+                trace.append("read(%s)" % rd)
+                note = read_object(cx, note, rd, check, "%s then %s" % (head, " ".join(trace)))
+            trace.append(note_edit_text(op))
+            ok, _ = cx.call("note-edit", do_note_edit, note, op)
+            if not ok:
+                alive = False
+                break
+            cur = apply_note_edit(cur, op)
+        if alive:
+            trace.append("read")
+            read_all(cx, note, check, "%s then %s" % (head, " ".join(trace)))
+        if len(res.violations) >= MAX_VIOL:
+            break
+    res.states = len(patterns)
+    res.traces = len(patterns)
+    res.outcome = "noteedit:%s:%s" % (cls, ">".join(op[0] for op in ops))
+    res.nontrivial = True
+
+
+# Tempo
+
+TE_UNITS_ALL = [None] + [[t, dots] for t in TYPES for dots in range(4)]
+TE_UNITS_CORE = [None, ["q", 0], ["h", 0], ["h", 1], ["e", 2], ["256th", 3], ["long", 0]]
+TE_UNITS_SMALL = [None, ["h", 1], ["16th", 0]]
+TE_BPMS_CORE = [30, 60, 120, 92.25]
+TE_BPMS_SMALL = [60, 66.5, 208]
+TE_STARTS_CORE = [[b, u] for u in (None, ["q", 0], ["h", 1], ["e", 2], ["16th", 0], ["whole", 3]) for b in TE_BPMS_SMALL]
+TE_BLOCKS = 24
+
+
+def unit_text(u):
+    return None if u is None else u[0] + "." * u[1]
+
+
+def ref_mpq_readings(bpm, u):
+    bq = Fraction(bpm) * (REF_LABEL[u[0]] * ref_dot(u[1]) if u is not None else 1)
+    return round_readings(Fraction(60 * 10 ** 6) / bq, window=Fraction(1, 10 ** 5))
+
+
+def _tempo_edit_alphabet(bpms, units):
+    return [["bpm", b] for b in bpms] + [["unit", u] for u in units]
+
+
+def check_tempo_now(res, cx, t, bpm, u, d, what="Tempo"):
+    ok, f = cx.call("tempo-fields-after-edit", lambda: (t.bpm, t.unit))
+    if ok and not (f[0] == bpm and f[1] == unit_text(u)):
+        res.fail("tempo-fields-after-edit", expected=[bpm, unit_text(u)], observed=list(f), where="%s.bpm/.unit" % what, detail=d)
+    ok, v = cx.call("tempo-mpq-after-edit", lambda: t.microseconds_per_quarter)
+    if ok:
+        if cx.among("tempo-mpq-after-edit", v, ref_mpq_readings(bpm, u), "%s.microseconds_per_quarter" % what, d) and not is_intlike(v):
+            res.fail("tempo-mpq-after-edit", expected="an integer", observed=repr(v), where="%s.microseconds_per_quarter" % what, detail=d)
+
+
+def ev_tempoedit(case, res, cx):
+    import itertools
+    import partitura.score as S
+
+    (bpm0, u0), ops = case["start"], case["ops"]
+    patterns = list(itertools.product(OBJ_READ_MODES, repeat=len(ops)))
+    head = "Tempo(%r, %r)" % (bpm0, unit_text(u0))
+    for pat in patterns:
+        ok, t = cx.call("tempo-mpq-after-edit", S.Tempo, bpm0, unit_text(u0))
+        if not ok:
+            break
+        cur = [bpm0, u0]
+        trace = []
+        alive = True
+
+        def check(obj, d, prefix):
+            check_tempo_now(res, cx, obj, cur[0], cur[1], d, prefix + "Tempo")
+
+        for op, rd in zip(ops, pat):
+            if rd != "none":
+                trace.append("read(%s)" % rd)
+                t = read_object(cx, t, rd, check, "%s then %s" % (head, " ".join(trace)))
+            if op[0] == "bpm":
+                trace.append(".bpm = %r" % (op[1],))
+                ok, _ = cx.call("tempo-edit", setattr, t, "bpm", op[1])
+                cur[0] = op[1]
+            else:
+                trace.append(".unit = %r" % (unit_text(op[1]),))
+                ok, _ = cx.call("tempo-edit", setattr, t, "unit", unit_text(op[1]))
+                cur[1] = op[1]
+            if not ok:
+                alive = False
+                break
+        if alive:
+            trace.append("read")
+            read_all(cx, t, check, "%s then %s" % (head, " ".join(trace)))
+        if len(res.violations) >= MAX_VIOL:
+            break
+    res.states = len(patterns)
+    res.traces = len(patterns)
+    res.outcome = "tempoedit:%s" % ">".join(op[0] for op in ops)
+    res.nontrivial = True
+
+
+# Notes and tempos inside a part, read through the note array and the MIDI export
+
+PE_NOTES = [
+    [["C", None, 4], ["F", 1, 4], ["B", -1, 3]],
+    [["E", -2, 5], ["G", 0, 2], ["A", 2, 6]],
+]
+PE_TEMPOS = [
+    [[120, ["q", 0]], [50, ["h", 1]]],
+    [[90, None], [72.5, ["e", 1]]],
+]
+PE_READ_MODES = ["none", "array", "midi"]
+PE_EDITS_ALL = (
+    [["octave-all", d] for d in (-1, 1, 2)]
+    + [["note", i, "octave", o] for i in range(3) for o in (1, 7)]
+    + [["note", i, "step", s] for i in range(3) for s in ("D", "A")]
+    + [["note", i, "alter", a] for i in range(3) for a in (None, -1, 1)]
+    + [["tempo", j, "bpm", b] for j in range(2) for b in (60, 132)]
+    + [["tempo", j, "unit", u] for j in range(2) for u in (None, ["h", 0], ["q", 1])]
+)
+PE_EDITS_CORE = [
+    ["octave-all", 1], ["octave-all", -1], ["note", 0, "octave", 7], ["note", 1, "octave", 1], ["note", 2, "step", "D"],
+    ["note", 0, "alter", 1], ["note", 1, "alter", None], ["tempo", 0, "bpm", 60], ["tempo", 1, "bpm", 132],
+    ["tempo", 0, "unit", ["h", 0]], ["tempo", 1, "unit", None],
+]
+PE_BLOCKS = 8
+
+
+def pe_edit_text(op):
+    if op[0] == "octave-all":
+        return "every note.octave += %d" % op[1]
+    if op[0] == "note":
+        return "note%d.%s = %r" % (op[1], op[2], op[3])
+    return "tempo%d.%s = %r" % (op[1], op[2], unit_text(op[3]) if op[2] == "unit" else op[3])
+
+
+def ev_partedit(case, res, cx):
+    import io
+    import itertools
+    import partitura
+    import partitura.score as S
+
+    specs, tspecs, ops = PE_NOTES[case["notes"]], PE_TEMPOS[case["tempos"]], case["ops"]
+    patterns = list(itertools.product(PE_READ_MODES, repeat=len(ops)))
+    head = "part with notes %s and tempos %s at t=0, 2 quarters" % (
+        " ".join("%s%+d/%d" % (s, a or 0, o) for s, a, o in specs), " ".join("%s=%r" % (unit_text(u) or "q", b) for b, u in tspecs))
+
+    def build():
+        part = S.Part("P0", quarter_duration=4)
+        part.add(S.TimeSignature(4, 4), 0)
+        notes, tempos = [], []
+        for i, (s, a, o) in enumerate(specs):
+            n = S.Note(step=s, octave=o, alter=a, id="n%d" % i, voice=1)
+            part.add(n, 4 * i, 4 * (i + 1))
+            notes.append(n)
+        for j, (b, u) in enumerate(tspecs):
+            t = S.Tempo(b, unit_text(u))
+            part.add(t, 8 * j)
+            tempos.append(t)
+        return part, notes, tempos
+
+    def read(part, how, cur_n, cur_t, d):
+        if how in ("array", "both"):
+            ok, na = cx.call("note-array-pitch-after-edit", lambda: part.note_array(include_pitch_spelling=True))
+            if ok:
+                try:
+                    rows = dict((str(r["id"]), (int(r["pitch"]), str(r["step"]), int(r["alter"]), int(r["octave"]))) for r in na)
+                except Exception as e:  # noqa
+                    res.fail("note-array-pitch-after-edit", expected="fields id, pitch, step, alter, octave", observed=exc_text(e),
+                             where="Part.note_array", detail=d)
+                    rows = None
+                if rows is not None:
+                    exp = dict(("n%d" % i, (ref_midi(s, a, o), s, a or 0, o)) for i, (s, a, o) in enumerate(cur_n))
+                    if rows != exp:
+                        res.fail("note-array-pitch-after-edit", expected=exp, observed=rows, where="Part.note_array", detail=d)
+        if how in ("midi", "both"):
+            import mido
+
+            buf = io.BytesIO()
+            ok, _ = cx.call("midi-export-after-edit", partitura.save_score_midi, part, buf)
+            if ok:
+                mf = mido.MidiFile(file=io.BytesIO(buf.getvalue()))
+                ons, tms = [], []
+                for tr in mf.tracks:
+                    now = 0
+                    for m in tr:
+                        now += m.time
+                        if m.type == "note_on" and m.velocity > 0:
+                            ons.append((now, m.note))
+                        elif m.type == "set_tempo":
+                            tms.append((now, m.tempo))
+                ons.sort()
+                tms.sort()
+                exp = [ref_midi(s, a, o) for s, a, o in cur_n]  # the notes follow one another
+                if [p for _, p in ons] != exp:
+                    res.fail("midi-export-pitch-after-edit", expected=exp, observed=[p for _, p in ons], where="save_score_midi (note_on)", detail=d)
+                readings = [ref_mpq_readings(b, u) for b, u in cur_t]
+                got = [v for _, v in tms]
+                # a repeated equal tempo may be written once
+                okt = len(got) == len(readings) and all(g in r for g, r in zip(got, readings))
+                if not okt and len(got) == 1 and set(readings[0]) & set(readings[1]):
+                    okt = got[0] in readings[0] and got[0] in readings[1]
+                if not okt:
+                    res.fail("midi-export-tempo-after-edit", expected=[list(r) for r in readings], observed=got, where="save_score_midi (set_tempo)", detail=d)
+
+    for pat in patterns:
+        ok, built = cx.call("note-array-pitch-after-edit", build)
+        if not ok:
+            break
+        part, notes, tempos = built
+        cur_n = [list(x) for x in specs]
+        cur_t = [list(x) for x in tspecs]
+        trace = []
+        alive = True
+        for op, rd in zip(ops, pat):
+            if rd != "none":
+                trace.append("read(%s)" % rd)
+                read(part, rd, cur_n, cur_t, "%s then %s" % (head, " ".join(trace)))
+            trace.append(pe_edit_text(op))
+            if op[0] == "octave-all":
+                for i, n in enumerate(notes):
+                    ok, _ = cx.call("note-edit", do_note_edit, n, ["octave+", op[1]])
+                    cur_n[i][2] += op[1]
+                    if not ok:
+                        break
+            elif op[0] == "note":
+                ok, _ = cx.call("note-edit", setattr, notes[op[1]], op[2], op[3])
+                cur_n[op[1]][{"step": 0, "alter": 1, "octave": 2}[op[2]]] = op[3]
+            else:
+                ok, _ = cx.call("tempo-edit", setattr, tempos[op[1]], op[2], unit_text(op[3]) if op[2] == "unit" else op[3])
+                cur_t[op[1]][{"bpm": 0, "unit": 1}[op[2]]] = op[3]
+            if not ok:
+                alive = False
+                break
+        if alive:
+            trace.append("read")
+            read(part, "both", cur_n, cur_t, "%s then %s" % (head, " ".join(trace)))
+        if len(res.violations) >= MAX_VIOL:
+            break
+    res.states = len(patterns)
+    res.traces = len(patterns)
+    res.outcome = "partedit:%s" % ">".join(op[0] if op[0] == "octave-all" else "%s.%s" % (op[0], op[2]) for op in ops)
+    res.nontrivial = True
+
+
 EVAL = {
+    "noteedit": ev_noteedit, "tempoedit": ev_tempoedit, "partedit": ev_partedit,
     "spelling": ev_spelling, "notename": ev_notename, "midi": ev_midi, "midi-array": ev_midi_array, "keys": ev_keys,
     "keyname": ev_keyname, "mode": ev_mode, "clef": ev_clef, "symdur": ev_symdur, "tempo": ev_tempo,
     "tuplet": ev_tuplet, "interval": ev_interval, "ticks": ev_ticks, "table": ev_table,
@@ -1967,6 +2350,115 @@ def _ivedit_cases(tier):
     return gen
 
 
+def _noteedit_cases(tier, seed):
+    def wide2():
+        for start in NE_STARTS_MID:
+            for e1 in NE_EDITS_ALL:
+                for e2 in NE_EDITS_ALL:
+                    if note_history_ok(start, [e1, e2]):
+                        yield dict(k="noteedit", cls="Note", start=start, ops=[e1, e2])
+
+    def gen():
+        import itertools
+
+        # one assignment: every spelling x every assignment
+        for start in NE_STARTS_ALL:
+            for e in NE_EDITS_ALL:
+                if note_history_ok(start, [e]):
+                    yield dict(k="noteedit", cls="Note", start=start, ops=[e])
+        for start in NE_STARTS_MID:
+            for e in NE_EDITS_ALL:
+                if note_history_ok(start, [e]):
+                    yield dict(k="noteedit", cls="GraceNote", start=start, ops=[e])
+        # two assignments
+        for cls, starts in (("Note", NE_STARTS_CORE), ("GraceNote", NE_STARTS_CORE[::7])):
+            for start in starts:
+                for e1 in NE_EDITS_CORE:
+                    for e2 in NE_EDITS_CORE:
+                        if note_history_ok(start, [e1, e2]):
+                            yield dict(k="noteedit", cls=cls, start=start, ops=[e1, e2])
+        # three assignments
+        for start in (NE_STARTS_SMALL[:2] if tier == "quick" else NE_STARTS_SMALL):
+            for es in itertools.product(NE_EDITS_SMALL, repeat=3):
+                if note_history_ok(start, list(es)):
+                    yield dict(k="noteedit", cls="Note", start=start, ops=[list(e) for e in es])
+        core2 = set((tuple(s), tuple(e1), tuple(e2)) for s in NE_STARTS_CORE for e1 in NE_EDITS_CORE for e2 in NE_EDITS_CORE)
+        for c in wide2():
+            if (tuple(c["start"]), tuple(c["ops"][0]), tuple(c["ops"][1])) in core2:
+                continue
+            if tier != "quick" or block_of(c, NE_BLOCKS) == seed % NE_BLOCKS:
+                yield c
+    return gen
+
+
+def _tempoedit_cases(tier, seed):
+    def gen():
+        import itertools
+
+        all_edits = _tempo_edit_alphabet(BPMS, TE_UNITS_ALL)
+        core_edits = _tempo_edit_alphabet(TE_BPMS_CORE, TE_UNITS_CORE)
+        small_edits = _tempo_edit_alphabet(TE_BPMS_SMALL[:2], TE_UNITS_SMALL)
+        for u in TE_UNITS_ALL:
+            for b in BPMS:
+                for e in all_edits:
+                    yield dict(k="tempoedit", start=[b, u], ops=[e])
+        for start in TE_STARTS_CORE:
+            for e1 in core_edits:
+                for e2 in core_edits:
+                    yield dict(k="tempoedit", start=start, ops=[e1, e2])
+        for start in (TE_STARTS_CORE[4::5] if tier == "quick" else TE_STARTS_CORE):
+            for es in itertools.product(small_edits, repeat=3):
+                yield dict(k="tempoedit", start=start, ops=[list(e) for e in es])
+        for start in TE_STARTS_CORE:
+            for e1 in all_edits:
+                for e2 in all_edits:
+                    if e1 in core_edits and e2 in core_edits:
+                        continue
+                    c = dict(k="tempoedit", start=start, ops=[e1, e2])
+                    if tier != "quick" or block_of(c, TE_BLOCKS) == seed % TE_BLOCKS:
+                        yield c
+    return gen
+
+
+def part_history_ok(notes, ops):
+    cur = [list(x) for x in PE_NOTES[notes]]
+    for op in ops:
+        if op[0] == "octave-all":
+            for n in cur:
+                n[2] += op[1]
+        elif op[0] == "note":
+            cur[op[1]][{"step": 0, "alter": 1, "octave": 2}[op[2]]] = op[3]
+        if not all(-1 <= o <= 9 and 0 <= ref_midi(s, a, o) <= 127 for s, a, o in cur):
+            return False
+    return True
+
+
+def _partedit_cases(tier, seed):
+    def gen():
+        for ni in range(len(PE_NOTES)):
+            for ti in range(len(PE_TEMPOS)):
+                for e in PE_EDITS_ALL:
+                    if part_history_ok(ni, [e]):
+                        yield dict(k="partedit", notes=ni, tempos=ti, ops=[e])
+        for ni, ti in ((0, 0), (1, 1)):
+            for e1 in PE_EDITS_CORE:
+                for e2 in PE_EDITS_CORE:
+                    if part_history_ok(ni, [e1, e2]):
+                        yield dict(k="partedit", notes=ni, tempos=ti, ops=[e1, e2])
+        for ni in range(len(PE_NOTES)):
+            for ti in range(len(PE_TEMPOS)):
+                for e1 in PE_EDITS_ALL:
+                    for e2 in PE_EDITS_ALL:
+                        if ni == ti and e1 in PE_EDITS_CORE and e2 in PE_EDITS_CORE:
+                            continue
+                        if not part_history_ok(ni, [e1, e2]):
+                            continue
+                        c = dict(k="partedit", notes=ni, tempos=ti, ops=[e1, e2])
+                        if tier != "quick" or block_of(c, PE_BLOCKS) == seed % PE_BLOCKS:
+                            yield c
+    return gen
+
+
 def _codeform_cases():
     for form in CODE_FORM_NAMES:
         for s in CLEF_SIGNS:
@@ -2101,6 +2593,31 @@ def spaces(tier, seed):
                     "before each edit {not read, .semitones, transpose_note over 9 (step, alter) probes}; after the edits .semitones and transpose_note "
                     "must give the size of the class the interval has now"
                     % ("(-3..3)^2" if tier == "quick" else "(-5..5)^2; three changes in (-2..2)^3")))
+    blk = lambda B: (" of which hash block %d of %d" % (seed % B, B)) if tier == "quick" else ""  # noqa
+    sp.append(Space("note-edits", _noteedit_cases(tier, seed), True,
+                    "one Note object whose step / alter / octave are assigned in place (.step=s, .alter=a, .octave=o, .octave+=d; histories that "
+                    "leave octave -1..9 are not generated) x every pattern of reading it before each assignment {not read, properties, on a "
+                    "copy.copy, on a copy.deepcopy - the history continues on the copy}; after the last assignment the object, a copy and a deep copy "
+                    "are read: .midi_pitch = 12(octave+1)+pc(step)+alter, .alter_sign worth alter semitones (|alter|<=2), .step/.alter/.octave as assigned. "
+                    "(1) one assignment: Note with 7 steps x alter {None,-3..3} x octave -1..9 (616 spellings) x 30 assignments {7 steps, 8 alters, 11 octaves, "
+                    "+=-2,-1,1,2}; GraceNote with 7 steps x alter {None,-1,0,2} x octave {-1,4,9} x the 30; (2) two assignments: Note from {C,E,B} x {None,-1,2} x "
+                    "{0,4} (GraceNote from 3 of these) x (7 steps, alter {None,-2..2}, octave {-1,3,4,5,9}, +=-1,1)^2; (3) three assignments: Note from %d "
+                    "spellings x ({D,B}, alter {None,-1,2}, octave {2,5}, +=1)^3; (4) two assignments wide: Note from the 84 spellings of (1b) x (30 assignments)^2%s"
+                    % (2 if tier == "quick" else 6, blk(NE_BLOCKS))))
+    sp.append(Space("tempo-edits", _tempoedit_cases(tier, seed), True,
+                    "one Tempo object whose bpm / unit are assigned in place x every pattern of reading it before each assignment {not read, property, on a "
+                    "copy, on a deep copy - continuing on the copy}; after the last assignment the object, a copy and a deep copy give "
+                    "microseconds_per_quarter = round(60e6/(bpm*unit in quarters)) for the bpm and unit it has now. (1) one assignment: (57 units {None, 14 types x "
+                    "dots 0..3} x 10 bpm) x (10 bpm + 57 units); (2) two: 18 starts x (bpm {30,60,120,92.25} + units {None,q,h,h.,e..,256th...,long})^2; (3) three: "
+                    "%d starts x (bpm {60,66.5} + units {None,h.,16th})^3; (4) two wide: the 18 starts x (67 assignments)^2%s"
+                    % (3 if tier == "quick" else 18, blk(TE_BLOCKS))))
+    sp.append(Space("part-edits", _partedit_cases(tier, seed), True,
+                    "a part (4/4, three consecutive quarter notes, two Tempo objects at 0 and 2 quarters) whose notes / tempos are edited in place, read through "
+                    "the library's consumers before each edit {not read, Part.note_array(include_pitch_spelling), save_score_midi} and through both after the "
+                    "last: pitch/step/alter/octave columns, note_on pitches and set_tempo values are those of the objects as they are now. 2 note triples x 2 "
+                    "tempo pairs x edits {every note.octave += -1,1,2; note i .octave in {1,7}, .step in {D,A}, .alter in {None,-1,1}; tempo j .bpm in {60,132}, "
+                    ".unit in {None,h,q.}} (34; histories leaving MIDI 0..127 are not generated): (1) one edit, all; (2) two edits from 11 core edits on 2 starts; "
+                    "(3) all pairs of the 34 on the 4 starts%s" % blk(PE_BLOCKS)))
     sp.append(Space("code-forms", _codeform_cases, True,
                     "clef codes 0..6 / 7 signs and mode codes +-1 / 6 mode spellings x number form {int, numpy int8/16/32/64, uint8, float, numpy "
                     "float16/32/64}: decode(encode) and encode(decode); mode codes in these forms as mode argument of fifths_mode_to_key_name and "
